@@ -65,7 +65,6 @@ func VerifH_done() {
 
 	isBind := c.hasCfg && c.cmd == pb.AffinityConfig_BIND
 	isUnbind := c.hasCfg && c.cmd == pb.AffinityConfig_UNBIND
-	replyKeys := c.reply != nil && len(c.reply.Keys) > 0
 	verifReach("before done")
 	done(balancer.DoneInfo{Err: derr})
 	verifReach("after done")
